@@ -34,6 +34,8 @@ namespace fastscapelib
                       k_prelock = 30, k_locked = 31, k_prewait = 32, k_woken = 33, k_end = 34;
         // grid: neighbors look-up (storage obtained, not yet read)
         constexpr int g_neighbors = 40;
+        // multi-threaded single flow router: one neighbor of the current node is about to be examined
+        constexpr int r_neighbor = 41;
         // diffusion ADI eroder: first half step done (aux: the intermediate elevation)
         constexpr int adi_half_step = 50;
 
